@@ -506,6 +506,35 @@ func (h *harness) targeted() {
 		})
 	}
 
+	// B1b: one short line pattern repeated many times. A parser whose block counter drifts by
+	// one per line (two blocks closed on one line, a brace taken as an argument, an unbalanced
+	// line) stays within the limit line by line but builds trees of unbounded depth, or accepts
+	// unbalanced input, only after hundreds of repetitions.
+	{
+		i := next()
+		h.run(i, "repeated-line-patterns", func(c *rep.Case, st *stats) {
+			patterns := []string{
+				"a { b { c } }\n", "a { b { c }\n}\n", "a { b }\n", "a {\nb }\n", "a { b { c } } }\n",
+				"a {\n", "}\n", "a { }\n", "a {\n}\n", "a b { c d { e f } }\n", "a \"{\" {\nb \"}\"\n}\n",
+				"a { b {\nc }\n}\n", "a { b { c { d } } }\n", "a { b { c } } # x\n", "a { b { c } }\r\n",
+				"a { b { c }\n", "(s) { a { b } }\nimport s\n", "a { b { c } }\n}\n",
+			}
+			for pi, pat := range patterns {
+				for _, n := range []int{1, 2, 3, 10, 100, 255, 256, 257, 300, 700, 2000} {
+					v := h.judge(c, st, []byte(strings.Repeat(pat, n)), capGenerated, "repeat")
+					if v.isErr {
+						st.count["repeat_rejected"]++
+					} else {
+						st.count["repeat_accepted"]++
+						r.Distinct("repeat_accepted_tree_depths", strconv.Itoa(v.facts.depth))
+					}
+					_ = pi
+				}
+			}
+			c.Done("repeated-line-patterns", true)
+		})
+	}
+
 	// B2: import site depth x snippet body depth
 	i := next()
 	h.run(i, "import-depth-grid", func(c *rep.Case, st *stats) {
